@@ -6,6 +6,9 @@ VERIF = os.path.dirname(os.path.dirname(os.path.abspath(__file__)))
 LEAN = os.path.join(VERIF, "lean")
 HARNESS = os.path.join(VERIF, "harness")
 REPO = os.environ.get("VERIF_REPO", "/repo")
+# a run against a scratch tree (seeded change) keeps its build and replays apart from those of /repo, so
+# that it can run while the same property is being checked on /repo
+SCR = "" if REPO == "/repo" else "-scratch"
 ORACLE_DIR = os.path.join(LEAN, ".lake", "build", "bin")
 ORACLE = [None]
 STD_AXIOMS = {"propext", "Classical.choice", "Quot.sound"}
@@ -443,7 +446,7 @@ def load_conf(prop):
 
 
 def write_replay(prop, suite, seed, n, rec):
-    d = os.path.join(VERIF, "out", "replays")
+    d = os.path.join(VERIF, "out", "replays" + SCR)
     os.makedirs(d, exist_ok=True)
     p = os.path.join(d, "%s-%s-%s-%d.json" % (prop, suite, seed, n))
     json.dump(rec, open(p, "w"), indent=1)
@@ -458,7 +461,7 @@ def replay(path):
         log(json.dumps(rec, indent=1)); return 0
     conf = load_conf(prop)
     scfg = [s for s in conf["suites"] if s["name"] == suite][0]
-    outdir = os.path.join(VERIF, "out", prop); os.makedirs(outdir, exist_ok=True)
+    outdir = os.path.join(VERIF, "out", prop + SCR); os.makedirs(outdir, exist_ok=True)
     drive, blog = build_harness(outdir, prop=prop)
     if not drive:
         log(blog); return 2
@@ -499,10 +502,10 @@ def main(argv):
         else: i += 1
     t0 = time.time()
     import glob
-    for old in glob.glob(os.path.join(VERIF, "out", "replays", prop + "-*.json")):
+    for old in glob.glob(os.path.join(VERIF, "out", "replays" + SCR, prop + "-*.json")):
         os.remove(old)
     conf = load_conf(prop)
-    outdir = os.path.join(VERIF, "out", prop); os.makedirs(outdir, exist_ok=True)
+    outdir = os.path.join(VERIF, "out", prop + SCR); os.makedirs(outdir, exist_ok=True)
     findings = load_findings()
     violations, known_hit, notes = [], {}, []
     nrep = [0]
